@@ -19,6 +19,8 @@
 (*     calculate_pnl_unrealised,                                           *)
 (*       approximate_remaining_exit_fees       -> Estimate                 *)
 (*     Position::update_pnl_unrealised         -> Mark                     *)
+(*     #[derive(Serialize, Deserialize)] of Position / PositionManager /   *)
+(*       InstrumentStates                      -> Persist (round trip)     *)
 (*   barter/src/engine/state/instrument/mod.rs                             *)
 (*     InstrumentState::update_from_trade      -> Fill                     *)
 (*     InstrumentState::update_from_market     -> Mark(price()) when a     *)
@@ -211,6 +213,14 @@ MarkNoPrice ==
     /\ last' = Ev("Mark", "NoPrice", "", Zero, Zero, Zero, 0, 0)
     /\ UNCHANGED <<pos, exited, net, cash, fees, nfill, fresh>>
 
+\* Persist: the state holding the position is stored and restored (serialised and deserialised:
+\* a session restart, a state snapshot handed to another process).  A stored and restored position
+\* is the same position - every field, the fill ids included - so everything reported afterwards
+\* (closed records of later fills too) is as if nothing had happened: a stutter.
+Persist ==
+    /\ last' = Ev("Persist", "", "", Zero, Zero, Zero, 0, 0)
+    /\ UNCHANGED <<pos, exited, net, cash, fees, nfill, fresh>>
+
 (***************************************************************************)
 (* The bounded model.  Every arm is a separately named action so that the  *)
 (* coverage of TLC shows it was taken.                                     *)
@@ -230,8 +240,9 @@ DoMarkNewer == \E m \in MARK : MarkNewer(R(m))
 DoMarkStale == \E m \in MARK : MarkStale(R(m))
 
 DoMarkNoPrice == MarkNoPrice
+DoPersist == Persist
 
-Next == DoOpen \/ DoIncrease \/ DoReduce \/ DoClose \/ DoFlip \/ DoMarkNewer \/ DoMarkStale \/ DoMarkNoPrice
+Next == DoOpen \/ DoIncrease \/ DoReduce \/ DoClose \/ DoFlip \/ DoMarkNewer \/ DoMarkStale \/ DoMarkNoPrice \/ DoPersist
 Spec == Init /\ [][Next]_vars
 
 (***************************************************************************)
@@ -338,5 +349,11 @@ NoPriceStutterStep ==
         /\ pos' = pos /\ exited' = exited /\ net' = net /\ cash' = cash /\ fees' = fees
 NoPriceStutter == [][NoPriceStutterStep]_vars
 
-StepProps == ExitIffStep /\ IdsStep /\ QmaxAvgStep /\ FreshUnrealStep /\ MarkOnlyUnrealStep /\ NoPriceStutterStep
+\* storing and restoring the state changes nothing
+PersistIsStutterStep ==
+    last'.a = "Persist" =>
+        /\ pos' = pos /\ exited' = exited /\ net' = net /\ cash' = cash /\ fees' = fees /\ fresh' = fresh
+PersistIsStutter == [][PersistIsStutterStep]_vars
+
+StepProps == PersistIsStutterStep /\ ExitIffStep /\ IdsStep /\ QmaxAvgStep /\ FreshUnrealStep /\ MarkOnlyUnrealStep /\ NoPriceStutterStep
 =============================================================================
